@@ -13,13 +13,13 @@ import (
 )
 
 type SolveResult struct {
-	Status  string  `json:"status"` // unsat, sat, unknown, timeout, error
-	Solver  string  `json:"solver"`
-	TimeS   float64 `json:"time_s"`
-	Model   string  `json:"model,omitempty"`
-	Raw     string  `json:"raw,omitempty"`
-	File    string  `json:"smt_file,omitempty"`
-	Tried   []string `json:"tried,omitempty"`
+	Status string   `json:"status"` // unsat, sat, unknown, timeout, error
+	Solver string   `json:"solver"`
+	TimeS  float64  `json:"time_s"`
+	Model  string   `json:"model,omitempty"`
+	Raw    string   `json:"raw,omitempty"`
+	File   string   `json:"smt_file,omitempty"`
+	Tried  []string `json:"tried,omitempty"`
 }
 
 type solverSpec struct {
@@ -75,7 +75,7 @@ func solve(query, file string, timeoutS, seed int, wantModel bool, confirm bool)
 	res := &SolveResult{File: file}
 	t0 := time.Now()
 	type ans struct {
-		s      solverSpec
+		s       solverSpec
 		st, raw string
 	}
 	ctx, cancel := context.WithCancel(context.Background())
